@@ -402,26 +402,20 @@ def tt_renumberdim(
     newidx:
     newshape:
     """
-    # Determine the size of the new range
+    # Renumber without building a table over the whole mode (sparse modes can be
+    # far longer than memory)
+    idx = np.asarray(idx)
     if isinstance(number_range, (int, np.integer)):
-        number_range = [int(number_range)]
-        newshape = 0
-    elif isinstance(number_range, slice):
-        number_range = list(range(0, shape))[number_range]
-        newshape = len(number_range)
-    elif isinstance(number_range, (Sequence, np.ndarray)):
-        newshape = len(number_range)
-    else:
-        raise ValueError(f"Bad number range: {number_range}")
-
-    # Create map from old range to the new range
-    idx_map = np.zeros(shape=shape)
-    for i in range(0, newshape):
-        idx_map[number_range[i]] = int(i)
-
-    # Do the mapping
-    newidx = idx_map[idx]
-    return newidx, newshape
+        return np.zeros(idx.shape, dtype=int), 0
+    if isinstance(number_range, slice):
+        selected = range(0, shape)[number_range]
+        return (idx - selected.start) // selected.step, len(selected)
+    if isinstance(number_range, (Sequence, np.ndarray)):
+        wanted = np.asarray(number_range, dtype=np.int64)
+        order = np.argsort(wanted, kind="stable")
+        where = np.searchsorted(wanted[order], idx, side="right") - 1
+        return order[where], len(wanted)
+    raise ValueError(f"Bad number range: {number_range}")
 
 
 # TODO make more efficient
@@ -796,7 +790,9 @@ def get_index_variant(indices: IndexType) -> IndexVariant:
             variant = IndexVariant.SUBSCRIPTS
     elif isinstance(indices, tuple):
         variant = IndexVariant.SUBTENSOR
-    elif isinstance(indices, Sequence) and isinstance(indices[0], int):
+    elif isinstance(indices, Sequence) and (
+        len(indices) == 0 or isinstance(indices[0], int)
+    ):
         # TODO this is slightly redundant/inefficient
         key = np.array(indices)
         if len(key.shape) == 1 or key.shape[1] == 1:
